@@ -238,8 +238,11 @@ def register_c12(op):
         objectio.set_io_objects()
 
     def dom(x):
+        # lengths at the edge of the quantifier too: 0 and above sys.maxsize are legal domain lengths
+        base = x.rstrip("*")
+        L = {0: 0, 1: 99999999999999999999999}.get(sum(map(ord, base)) % 7, 5)
         try:
-            return bc.DomainS(x, 5)
+            return bc.DomainS(x, L)
         except SingletonError:
             return bc.DomainS(x)
 
